@@ -287,31 +287,34 @@ Definition run_async (orc : list oracle_step) (fuel : nat) : outcome := run_loop
 
 (* ---------------------------------------------------------------- the sequential loop (debug worker)
    for job in tasks: worker.run(job)  — runs to completion; a failing job raises out of the loop.  *)
-Fixpoint run_tasks (tasks : list job) (ss : sstate) (w : world) (tr : list event) (acc : list job)
-  : world * list event * list job * bool :=
+Fixpoint run_tasks (tasks : list job) (ss : sstate) (w : world) (errs : list job) (tr : list event)
+         (acc : list job) : world * list job * list event * list job * bool :=
   match tasks with
-  | [] => (w, tr, acc, false)
+  | [] => (w, errs, tr, acc, false)
   | j :: r =>
       (* Job.run returns the cached result when one exists and is not errored *)
-      if is_ok w j then run_tasks r ss w tr acc
+      if is_ok w j then run_tasks r ss w errs tr acc
       else
         let v := job_result ss j in
         let w1 := mkW (results w ++ [(j, v)]) [] in
         match v with
-        | None => (w1, EFinish j false :: ELaunch j :: tr, acc ++ [j], true)
-        | Some _ => run_tasks r ss w1 (EFinish j true :: ELaunch j :: tr) (acc ++ [j])
+        | None => (w1, errs ++ [j], EFinish j false :: ELaunch j :: tr, acc ++ [j], true)
+        | Some _ => run_tasks r ss w1 errs (EFinish j true :: ELaunch j :: tr) (acc ++ [j])
         end
   end.
 
+(* ls_errors: the job whose exception propagates out of expand_workflow (there is no error list in
+   the sequential loop; the field only records which job that was) *)
 Definition sync_step (ls : lstate) : step_result :=
   if raised (ls_ss ls) then Stop Raised ls else
   if negb (negb (is_nil (ls_tasks ls)) || any_not_done (ls_w ls) (ls_ss ls)) then Stop Finished ls else
-  let '(w1, tr1, launched, failed) := run_tasks (ls_tasks ls) (ls_ss ls) (ls_w ls) (ls_trace ls) [] in
-  let ls1 := mkLS (ls_ss ls) w1 (ls_tasks ls) (ls_futured ls ++ launched) [] (ls_errors ls) tr1
+  let '(w1, errs1, tr1, launched, failed) :=
+    run_tasks (ls_tasks ls) (ls_ss ls) (ls_w ls) (ls_errors ls) (ls_trace ls) [] in
+  let ls1 := mkLS (ls_ss ls) w1 (ls_tasks ls) (ls_futured ls ++ launched) [] errs1 tr1
                   ((ls_tasks ls, launched) :: ls_iters ls) in
   if failed then Stop Raised ls1 else
   let '(ss2, tasks2) := poll w1 (ls_ss ls) in
-  Continue (mkLS ss2 w1 tasks2 (ls_futured ls1) [] (ls_errors ls) tr1 (ls_iters ls1)).
+  Continue (mkLS ss2 w1 tasks2 (ls_futured ls1) [] errs1 tr1 (ls_iters ls1)).
 
 Fixpoint run_sync_loop (fuel : nat) (ls : lstate) : outcome :=
   match fuel with
